@@ -751,7 +751,15 @@ class Evaluator:
         idx = [c for x, c in zip(a, comps) if c.op == 'rangevar' and x.op == 'call' and x.args[0].op == 'builtin' and x.args[0].args[0] == 'range' and
                len([y for y in x.args[1]]) == 1]
         if len(idx) == 1:
-          comps = [c if c is idx[0] else (self.subscript(x, idx[0], None) if c.op == 'elem' and c.args[0] is x else c) for x, c in zip(a, comps)]
+          # zip(range(len(xs)), xs) is enumerate(xs): the same (position, element) pair
+          rng = [x for x, c in zip(a, comps) if c is idx[0]][0]
+          bound = rng.args[1][0]
+          enum_of = [x for x in a if x is not rng and bound.op == 'call' and bound.args[0].op == 'builtin' and bound.args[0].args[0] == 'len' and
+                     len(bound.args[1]) == 1 and bound.args[1][0] is x]
+          if len(enum_of) == 1 and len(a) == 2:
+            comps = [T('index', enum_of[0]) if c is idx[0] else self.elem_of(x) for x, c in zip(a, comps)]
+          else:
+            comps = [c if c is idx[0] else (self.subscript(x, idx[0], None) if c.op == 'elem' and c.args[0] is x else c) for x, c in zip(a, comps)]
         return T('zipped', *comps)
       if name == 'enumerate' and a:
         return tup(T('index', a[0]), self.elem_of(a[0]))
@@ -792,7 +800,19 @@ class Evaluator:
     return self.lookup(n.id, scope, n)
 
   def ev_JoinedStr(self, n, scope):
-    return T('fstring', ast.unparse(n))
+    # an f-string whose parts are all statically known strings / numbers (no format spec) is that string
+    parts = []
+    for v in n.values:
+      if isinstance(v, ast.Constant) and isinstance(v.value, str):
+        parts.append(v.value)
+        continue
+      if isinstance(v, ast.FormattedValue) and v.format_spec is None and v.conversion in (-1, 115):
+        t = self.ev(v.value, scope)
+        if is_const(t) and isinstance(cval(t), (str, int)) and not isinstance(cval(t), bool):
+          parts.append(str(cval(t)))
+          continue
+      return T('fstring', ast.unparse(n))
+    return const(''.join(parts))
 
   def ev_NamedExpr(self, n, scope):
     v = self.ev(n.value, scope)
